@@ -792,7 +792,25 @@ impl<'a> Interp<'a> {
             _ => None,
         };
         match c {
-            Some(c) => self.emit(S_OK, &[c as u64]),
+            Some(c) => {
+                // the harness's own bookkeeping: table entries (of every kind) that refer to the same block
+                let own = match self.block_of(p) {
+                    Some(b) => {
+                        let mut n = 0u64;
+                        for i in 0..self.table.len() {
+                            // an entry lent to a callback is represented by the transient the callback sees
+                            if let Some((q, _)) = self.resolve(i) {
+                                if self.block_of(q) == Some(b) {
+                                    n += 1;
+                                }
+                            }
+                        }
+                        n
+                    }
+                    None => 9999,
+                };
+                self.emit(S_OK, &[c as u64, own])
+            }
             None => self.emit_skip(),
         }
     }
@@ -1174,13 +1192,11 @@ impl<'a> Interp<'a> {
     fn final_obs(&mut self) -> Vec<u64> {
         let mut owners = vec![0u64; self.blocks.len()];
         let mut stray = 0u64;
-        for sp in self.table.clone() {
-            unsafe {
-                if let Some(x) = (*sp).as_mut() {
-                    match self.block_of(p_of(x)) {
-                        Some(b) if b < owners.len() => owners[b] += 1,
-                        _ => stray += 1,
-                    }
+        for i in 0..self.table.len() {
+            if let Some((q, _)) = self.resolve(i) {
+                match self.block_of(q) {
+                    Some(b) if b < owners.len() => owners[b] += 1,
+                    _ => stray += 1,
                 }
             }
         }
